@@ -76,6 +76,11 @@ func simplifyCurve(curve Path,
 	if len(curve) == 0 {
 		return nil
 	}
+	if len(curve) <= 2 {
+		// There is nothing to remove, and the loop below would never
+		// reach the last point.
+		return append(out, curve...)
+	}
 
 	i := 0
 	for {
